@@ -50,8 +50,12 @@ def run_real(nums, dens, version):
         if isinstance(f, (tuple, list)) and f and f[0] == "ratio":
             return pt.WideRatio([ex(x) for x in f[1]], [ex(x) for x in f[2]])
         return pt.Int(f)
-    prog = pt.Seq(pt.Log(pt.Itob(pt.WideRatio([ex(x) for x in nums], [ex(x) for x in dens]))), pt.Approve())
-    teal = pt.compileTeal(prog, pt.Mode.Application, version=version)
+    try:
+        prog = pt.Seq(pt.Log(pt.Itob(pt.WideRatio([ex(x) for x in nums], [ex(x) for x in dens]))), pt.Approve())
+        teal = pt.compileTeal(prog, pt.Mode.Application, version=version)
+    except (pt.TealInputError, pt.TealInternalError, pt.TealTypeError, pt.TealCompileError) as e:
+        # a factor list inside the property's domain (not both singletons, 1..6 factors each) must be accepted
+        return ("rejected-when-built", f"{type(e).__name__}: {str(e)[:120]}"), ""
     r = avm.run(teal, avm.Ctx())
     if r.verdict == "approve":
         return ("approve", int.from_bytes(r.logs[0], "big")), teal
